@@ -91,7 +91,7 @@ def gen(rng, tier):
     dtype = rng.choice(['f4', 'f4', 'f8'])
     n1d = rng.choice([rng.randrange(1, 13), rng.randrange(1, 25), rng.randrange(4, 65)])
     coord = rng.choice([0, 0, 1, 2])
-    shape = [rng.choice([n1d, rng.randrange(2, 9)]) for _ in range(3)]
+    shape = [rng.choice([n1d, rng.randrange(2, 9), rng.choice([12, 24, 48, 64])]) for _ in range(3)]
     shape[coord] = n1d
     if rng.random() < 0.6:
         shape = [n1d] * 3 if n1d <= 16 else shape
@@ -112,30 +112,44 @@ def gen(rng, tier):
 def sweep(tier):
     """Complete over the accept/reject decision and the stripe geometry for
     ngrid 1..NG x (nthread 1..16 with the default npartition) and
-    ngrid x npartition 1..ngrid (explicit, nthread in {1, 16})."""
+    ngrid x npartition 1..ngrid (explicit, nthread in {1, 16}), for the partition
+    axis 0 on a grid whose other axes are short, and for partition axes 1 and 2 on
+    grids whose axis 0 is long (so that using the wrong axis length is visible)."""
     import random
     NG = 64
     rng = random.Random(20260926)
-    for n1d in range(1, NG + 1):
-        # y/z kept small: the partition axis is what matters
-        shape = [n1d, 3, 3]
-        for nthread in range(1, 17):
-            for policy in (('static',) if nthread == 1 else ('static', 'cyclic')):
-                yield _sweep_case(rng, shape, nthread, None, policy)
-        for npart in range(1, n1d + 1):
-            for nthread, policy in ((1, 'static'), (16, 'static'), (16, 'cyclic')):
-                yield _sweep_case(rng, shape, nthread, npart, policy)
+    for coord in (0, 1, 2):
+        for n1d in range(1, NG + 1):
+            shape = [3, 3, 3] if coord == 0 else [NG, 3, 3]
+            shape[coord] = n1d
+            if coord == 2:
+                shape[1] = 5
+            for nthread in range(1, 17):
+                for policy in (('static',) if nthread == 1 else ('static', 'cyclic')):
+                    if coord and policy == 'static' and nthread > 1:
+                        continue
+                    yield _sweep_case(rng, shape, nthread, None, policy, coord)
+            for npart in range(1, n1d + 1):
+                combos = ((1, 'static'), (16, 'static'), (16, 'cyclic')) if coord == 0 else ((16, 'cyclic'),)
+                for nthread, policy in combos:
+                    yield _sweep_case(rng, shape, nthread, npart, policy, coord)
 
 
-def _sweep_case(rng, shape, nthread, npart, policy):
-    n1d = shape[0]
+def _sweep_case(rng, shape, nthread, npart, policy, coord=0):
+    n1d = shape[coord]
     box = 1.0
     xs = []
-    for np_c in _candidates(n1d, nthread, npart):
+    for np_c in _candidates(n1d, nthread, npart) + ([] if npart else _candidates(shape[0], nthread, None)):
         xs += _edge_values(box, np_c, 'f4')
     xs = sorted(set(xs))
-    pos = [[x, 0.4, 0.6] for x in xs]
-    return {'shape': shape, 'box': box, 'dtype': 'f4', 'nthread': nthread, 'npartition': npart, 'coord': 0,
+    if len(xs) > 140:
+        xs = xs[::len(xs) // 140 + 1]
+    pos = []
+    for x in xs:
+        p = [0.4, 0.6, 0.3]
+        p[coord] = x
+        pos.append(p)
+    return {'shape': list(shape), 'box': box, 'dtype': 'f4', 'nthread': nthread, 'npartition': npart, 'coord': coord,
             'sort': False, 'offset': '0' if (n1d + nthread) % 2 else 'half', 'wrap': False, 'pos': pos,
             'weights': None, 'sched': {'policy': policy, 'strategy': 'serial', 'seed': n1d * 1000 + nthread},
             'poison': 'A', 'sweep': True}
@@ -145,7 +159,7 @@ def _sweep_case(rng, shape, nthread, npart, policy):
 def _call(tsc, case, pos, weights, nthread, npartition):
     shape = tuple(case['shape'])
     box = case['box']
-    off = 0.0 if case['offset'] == '0' else 0.5 * box / shape[0]
+    off = 0.0 if case['offset'] == '0' else 0.5 * box / shape[case['coord']]
     return tsc.tsc_parallel(pos.copy(), shape, box, weights=None if weights is None else weights.copy(),
                             nthread=nthread, wrap=case['wrap'], npartition=npartition, sort=case['sort'],
                             coord=case['coord'], offset=off)
